@@ -9,6 +9,7 @@ import (
 	"io"
 	"math/rand"
 	"runtime/debug"
+	"strings"
 	"sync"
 	"time"
 
@@ -44,8 +45,8 @@ func waitOrWatchdog(wg *sync.WaitGroup, d time.Duration) bool {
 }
 
 type hsResult struct {
-	sc  *conn.SecretConnection
-	err error
+	sc    *conn.SecretConnection
+	err   error
 	pan   interface{}
 	stack string
 }
@@ -368,6 +369,9 @@ type cwPlan struct {
 // 1024 bytes must arrive contiguously (documented contract of Write).
 func concurrentWriters(c *core.Case) {
 	run, r := c.Run, c.R
+	if strings.HasPrefix(c.Group, "race-") {
+		run.Count("cases_under_race_detector", 1)
+	}
 	plan := cwPlan{Writers: 2 + r.Intn(4), Chunk: 1 + r.Intn(3000), Both: r.Intn(2) == 0, Atomic: r.Intn(3) == 0}
 	for w := 0; w < plan.Writers; w++ {
 		var s []int
@@ -432,7 +436,10 @@ func concurrentWriters(c *core.Case) {
 		backWant = detBytes(r.Int63(), 3000+r.Intn(6000))
 		rr2 := rand.New(rand.NewSource(r.Int63()))
 		rwg.Add(1)
-		go func() { defer rwg.Done(); back, _, backErr = readAll(a.sc, func() int { return pickReadSize(rr2) }, true) }()
+		go func() {
+			defer rwg.Done()
+			back, _, backErr = readAll(a.sc, func() int { return pickReadSize(rr2) }, true)
+		}()
 		wwg.Add(1)
 		go func() {
 			defer wwg.Done()
@@ -534,5 +541,97 @@ func concurrentWriters(c *core.Case) {
 	run.Count("concurrent_writer_switches", switches)
 	if switches > plan.Writers {
 		run.Nontrivial(fmt.Sprint("cw", c.I, plan.Writers, switches))
+	}
+}
+
+// interopCase: the real implementation against the independent one, both honest. What the
+// real writer puts on the wire must open under the reference to exactly the bytes written
+// (frame size, length field, counter nonce, key assignment), and reference frames must be
+// read by the real reader.
+func interopCase(c *core.Case) {
+	run, r := c.Run, c.R
+	kA, kM := detKey(r), detKey(r)
+	var sizes []int
+	for i, n := 0, 1+r.Intn(8); i < n; i++ {
+		sizes = append(sizes, pickWriteSize(r))
+	}
+	out := detBytes(r.Int63(), sum(sizes))
+	back := detBytes(r.Int63(), r.Intn(6000))
+	d := newDuplex(r.Int63(), 1+r.Intn(3000), 0)
+	m := newEvil(d.b, r, kM)
+	var wire []byte
+	var mErr error
+	done := make(chan struct{})
+	go func() {
+		defer close(done)
+		defer d.b.out.closeWrite()
+		if mErr = m.exchangeEph(nil); mErr != nil {
+			return
+		}
+		m.sendAuth(pubBytes(&kM.PublicKey), m.sign(m.s.challenge[:]))
+		if _, _, mErr = m.recvAuth(); mErr != nil {
+			return
+		}
+		m.e.Write(m.s.sealStream(back))
+		d.b.out.closeWrite()
+		wire, _ = io.ReadAll(d.b)
+	}()
+	var res hsResult
+	wg := newWG(1)
+	realHandshake(d.a, kA, &res, wg, false)
+	if !waitOrWatchdog(wg, watchdog) {
+		run.Inconclusive("watchdog: interop handshake did not finish")
+		d.closeAll()
+		return
+	}
+	wit := map[string]interface{}{"write_sizes": sizes, "bytes_from_reference": len(back)}
+	if res.err != nil {
+		c.Violation("handshake:attacker-own-key:honest-failed", fmt.Sprintf("handshake with the reference implementation acting honestly failed: %v (reference: %v)", res.err, m.log), wit)
+		d.closeAll()
+		return
+	}
+	_, werr := writeSizes(res.sc, sizes, out)
+	d.ab.closeWrite()
+	rr := rand.New(rand.NewSource(r.Int63()))
+	got, _, rerr := readAll(res.sc, func() int { return pickReadSize(rr) }, true)
+	select {
+	case <-done:
+	case <-time.After(watchdog):
+		run.Inconclusive("watchdog: reference side of interop case did not finish")
+		d.closeAll()
+		return
+	}
+	d.closeAll()
+	run.Eval(1)
+	if werr != nil || mErr != nil {
+		c.Violation("stream:write-error", fmt.Sprintf("interop: write error %v, reference error %v", werr, mErr), wit)
+		return
+	}
+	if kind, at := diffKind(got, back); kind != "" || rerr != io.EOF {
+		c.Violation("interop:reference-frames-misread:"+kind, fmt.Sprintf("frames sealed by the reference implementation: the real reader delivered a different stream (%s at %d, error %v)", kind, at, rerr), wit)
+		return
+	}
+	frames := 0
+	for _, s := range sizes {
+		frames += (s + 1023) / 1024
+	}
+	if len(wire) != frames*refSealed {
+		c.Violation("interop:wire-format", fmt.Sprintf("writes %v produced %d wire bytes; the protocol says %d frames of %d", sizes, len(wire), frames, refSealed), wit)
+		return
+	}
+	data, dirty, err := m.s.openStream(wire)
+	if err != nil {
+		c.Violation("interop:real-frames-do-not-open", fmt.Sprintf("frames of the real writer do not open under the protocol's keys and counter nonces: %v (after %d bytes)", err, len(data)), wit)
+		return
+	}
+	if kind, at := diffKind(data, out); kind != "" {
+		c.Violation("interop:real-frames-differ:"+kind, fmt.Sprintf("the plaintext inside the real writer's frames differs from what was written (%s at %d)", kind, at), wit)
+		return
+	}
+	run.Count("interop_cases", 1)
+	run.Count("interop_frames_opened_by_reference", frames)
+	run.Count("interop_frames_with_nonzero_padding", dirty)
+	if frames > 0 {
+		run.Nontrivial(fmt.Sprint("interop", c.I, sizes))
 	}
 }
